@@ -311,3 +311,25 @@ Theorem C10_foreign_member_accepted :
             all_nodes ext_ok (mkEnv [] u_other_ns jor) s = true.
 Proof. exact c10_foreign_member_accepted. Qed.
 Print Assumptions C10_foreign_member_accepted.
+
+(* ---- unit names are taken literally ----
+   The meta-schema puts no constraint on unit names, and the loader accepts any.  The model's unit parser is built
+   from `lit name` for each of the eight names (Schema/Units.v mult_part / base_part: what regexp.QuoteMeta achieves
+   in updateReCache), so there is no compilation step that could fail on use: C10_usable covers every name.  An
+   instance whose names are not valid regular expressions on their own (unbalanced group / class, dangling
+   repetition, trailing backslash), in base and multiplier, short and long, singular and plural positions: *)
+From Coq Require Import List ZArith String.
+Import ListNotations.
+Definition c10_meta_units : units :=
+  mkUnits (mkUnit "B" "B(" "byte)" "[bytes")
+          [(1024%Z, mkUnit "?kB" "k*B" "kilobyte\" "kilobyte(s)(")].
+Example C10_unit_names_literal_example :
+  wf_units c10_meta_units = true /\
+  parse_units_int c10_meta_units "5" = Some 5%Z /\
+  parse_units_int c10_meta_units "2kilobyte(s)(" = Some 2048%Z /\
+  parse_units_int c10_meta_units "2 kilobyte\ 3[bytes" = Some 2051%Z /\
+  parse_units_int c10_meta_units "1k*B 1B(" = Some 1025%Z /\
+  parse_units_int c10_meta_units "1?kB1byte)" = Some 1025%Z /\
+  parse_units_int c10_meta_units "2kilobytes" = None /\
+  parse_units_int c10_meta_units "1kkB" = None.
+Proof. vm_compute. repeat split; reflexivity. Qed.
